@@ -468,6 +468,40 @@ def all_colls(st):
     return out
 
 
+def _all_objs(st):
+    seen, out = set(), []
+
+    def walk(v):
+        if isinstance(v, SObj):
+            if id(v) in seen:
+                return
+            seen.add(id(v))
+            out.append(v)
+            for x in v.fields.values():
+                walk(x)
+        elif isinstance(v, (list, tuple)):
+            for x in v:
+                walk(x)
+        elif isinstance(v, dict):
+            for x in v.values():
+                walk(x)
+    for fr in st.frames:
+        f = fr
+        while f is not None:
+            walk(f.locals)
+            f = f.parent
+    walk(st.roots)
+    return out
+
+
+def _merge_const(cond, val, old):
+    if isinstance(val, bool) and (isinstance(old, bool) or (isz(old) and z3.is_bool(old))):
+        return z3.If(cond, z3.BoolVal(val), V.Bz(old))
+    if isinstance(val, int) and (isinstance(old, int) or (isz(old) and z3.is_int(old))):
+        return z3.If(cond, z3.IntVal(val), V.Z(old))
+    raise Unsupported("attribute set inside a loop: cannot merge %r with %r" % (val, old))
+
+
 def loop_over(ex, st, stmt, src):
     sx = _sx()
     ctx = ex.ctx
@@ -516,6 +550,20 @@ def loop_over(ex, st, stmt, src):
         c.iterating -= 1
     # the iterated collection itself must not be mutated inside the loop (checked by .iterating in method())
 
+    # a non-exit path may also set an attribute to a CONSTANT that does not depend on the element (a latch set inside
+    # the loop): after the loop the attribute is that constant iff at least one iteration took such a path
+    const_sets = {}
+    for r in next_paths:
+        keep = []
+        for e_ in r["other"]:
+            if e_[0] == "field":
+                objs = [o for o in _all_objs(r["st"]) if o.oid == e_[1]]
+                val = objs[0].fields.get(e_[2]) if objs else None
+                if objs and (val is None or isinstance(val, (bool, int, str))):
+                    const_sets.setdefault((e_[1], e_[2]), []).append((r, val))
+                    continue
+            keep.append(e_)
+        r["other"] = keep
     has_acc = any(r["eff"] or r["other"] for r in next_paths)
     out = []
     if not has_acc:
@@ -528,6 +576,22 @@ def loop_over(ex, st, stmt, src):
             st.pc.append(_forall(allc, z3.Not(exit_cond)))
         for nme in body_names:
             st.frame.locals[nme] = POISON
+        for (oid, fname), lst in const_sets.items():
+            vals = set(v for _, v in lst)
+            if len(vals) != 1:
+                raise Unsupported("attribute set to different constants inside a loop")
+            val = vals.pop()
+            took = _exists(consts + local_consts, z3.Or(*[r["cond"] for r, _ in lst]))
+            for holder, paths_ in ((st, None),):
+                for o in _all_objs(st):
+                    if o.oid == oid:
+                        o.fields[fname] = _merge_const(took, val, o.fields.get(fname))
+            # exit paths: some earlier iteration may or may not have set it (over-approximation: either)
+            for r in exit_paths:
+                for o in _all_objs(r["st"]):
+                    if o.oid == oid:
+                        maybe = fresh_const(ctx, "maybe_set", z3.BoolSort())
+                        o.fields[fname] = _merge_const(maybe, val, o.fields.get(fname))
         st.log.append(("loop",))
         base_log = list(st.log)
         if stmt.orelse:
